@@ -13,7 +13,7 @@ use std::path::Path;
 
 /// seed programs. `§` marks completion cursors (removed from the text). Binders named `v_<tag>` have
 /// the declared type listed in `TYPED`.
-pub const SEEDS: [&str; 10] = [
+pub const SEEDS: [&str; 11] = [
     // 0: structs, fields, inherent methods
     "struct Point { x: int32, y: int32 }\n\nimpl Point {\n    fn sum(self: Point) -> int32 { self.x + self.y }\n    fn scale(self: Point, k: int32) -> Point { Point { x: self.x * k, y: self.y * k } }\n}\n\nfn main() {\n    let v_point: Point = Point { x: 1, y: 2 };\n    let a = v_point.§x;\n    let b = v_point.sum();\n    let c = v_point.§scale(2);\n    string_println(int32_to_string(a + b + c.x))\n}\n",
     // 1: enums and colon-colon
@@ -34,10 +34,15 @@ pub const SEEDS: [&str; 10] = [
     "fn main() {\n    let v_i8: int8 = 1i8;\n    let v_u64: uint64 = 2u64;\n    let v_f64: float64 = 1.5;\n    let v_bool: bool = v_i8 < 2i8;\n    string_println(int8_to_string(v_i8) + uint64_to_string(v_u64) + float64_to_string(v_f64) + bool_to_string(v_bool))\n}\n",
     // 9: derive + to_string
     "#[derive(ToString)]\nstruct P { a: int32, b: bool }\n\nfn main() {\n    let v_p: P = P { a: 1, b: false };\n    string_println(v_p.§to_string())\n}\n",
+    // 10: non-ASCII text (2-, 3- and 4-byte characters in a comment and in string literals): byte
+    // columns inside a character are positions an editor can send
+    "struct Q { name: string }\n\nfn main() {\n    // na\u{ef}ve \u{2603} \u{1F600} comment\n    let v_q: Q = Q { name: \"\u{e9}\u{2603}\u{1F600}\" };\n    let v_s: string = v_q.§name + \"\u{fc}\";\n    string_println(v_s)\n}\n",
 ];
 
 /// declared types of the `v_*` binders (as the type printer renders them, spaces removed)
-pub const TYPED: [(&str, &str); 27] = [
+pub const TYPED: [(&str, &str); 29] = [
+    ("v_q", "Q"),
+    ("v_s", "string"),
     ("v_point", "Point"),
     ("v_color", "Color"),
     ("v_int", "int32"),
@@ -113,6 +118,12 @@ fn positions(text: &str, all: bool) -> Vec<(u32, u32)> {
                 for c in [s.saturating_sub(1), s, s + 1, e] {
                     cols.insert(c);
                 }
+                if !t.text.is_ascii() {
+                    // every byte column of a token with multi-byte characters
+                    for c in s..=e {
+                        cols.insert(c);
+                    }
+                }
             }
             for c in cols {
                 v.push((li as u32, c));
@@ -136,7 +147,7 @@ impl Family for QueryTotal {
         &["C20"]
     }
     fn rule(&self) -> &'static str {
-        "texts = every prefix at every char boundary (quick: every 4th) and every single-token deletion of 10 seed programs; positions = every (line, col) incl. two columns past each line end and two lines past the end (quick: token boundaries ±1); requests = hover, dot-completion, colon-colon-completion; oracle = returns without panic within the cap; one case = one seed x mode x window of 40 texts; distinct = distinct (text, request) pairs that returned Some/Ok"
+        "texts = every prefix at every char boundary (quick: every 4th) and every single-token deletion of 11 seed programs (one with 2-, 3- and 4-byte characters in a comment and in string literals); positions = every (line, byte col) incl. columns inside multi-byte characters, two columns past each line end and two lines past the end (quick: token boundaries ±1 and every byte column of tokens with non-ASCII text); requests = hover, dot-completion, colon-colon-completion; oracle = returns without panic within the cap; one case = one seed x mode x window of 40 texts; distinct = distinct (text, request) pairs that returned Some/Ok"
     }
     fn cases(&self, _tier: Tier) -> Box<dyn Iterator<Item = Value> + '_> {
         let mut v = Vec::new();
@@ -320,7 +331,7 @@ impl Family for QueryAgree {
         &["C20"]
     }
     fn rule(&self) -> &'static str {
-        "on the 10 complete seed programs: hover at every character of every occurrence of a `v_*` binder or use must report the binder's declared type; at every `x.`/`Path::` cursor each offered completion, inserted (methods with synthesised arguments), must type-check; distinct = distinct (seed, occurrence) / (seed, cursor, item)"
+        "on the 11 complete seed programs: hover at every character of every occurrence of a `v_*` binder or use must report the binder's declared type; at every `x.`/`Path::` cursor each offered completion, inserted (methods with synthesised arguments), must type-check; distinct = distinct (seed, occurrence) / (seed, cursor, item)"
     }
     fn cases(&self, _tier: Tier) -> Box<dyn Iterator<Item = Value> + '_> {
         Box::new((0..SEEDS.len()).map(|i| json!({"seed": i})))
